@@ -355,8 +355,13 @@ pub fn main() {
         return;
     }
     let (hash, order_hash, contended) = exec(&scen, mode, args.iter().any(|a| a == "--verbose"));
-    println!("OUT {:016x} order={:016x} overlapping_pairs={} threads={} ops={}", hash, order_hash, contended, scen.threads.len(),
-        scen.threads.iter().map(|t| t.len()).sum::<usize>());
+    // one write for the whole line (many Miri seeds share the pipe), closed by ';' so that a
+    // torn line is never mistaken for a result
+    let line = format!("OUT {:016x} order={:016x} overlapping_pairs={} threads={} ops={};\n", hash, order_hash, contended,
+        scen.threads.len(), scen.threads.iter().map(|t| t.len()).sum::<usize>());
+    use std::io::Write;
+    let _ = std::io::stdout().write_all(line.as_bytes());
+    let _ = std::io::stdout().flush();
 }
 
 fn exec(scen: &Scenario, mode: &str, verbose: bool) -> (u64, u64, usize) {
